@@ -552,6 +552,8 @@ class System:
         except (SolverError, matrix.MatrixError) as e:
             if timearg not in self.arguments and timesteparg not in self.arguments or maxretry <= 0:
                 raise
+            if timearg:
+                arguments[timearg] = time # restart from the beginning of the failed step
             log.error(f'error: {e}; retrying with timestep {timestep/2}')
             halfstep_args = dict(solveargs, timestep=timestep/2, timearg=timearg, timesteparg=timesteparg, suffix=suffix, maxretry=maxretry-1)
             with log.context('retry 1/2'):
